@@ -145,6 +145,8 @@ def run_case(case, host_kind=None, decorate=None, on_step=None):
 def run_query(chart, rt, q):
   """Between-step query; returns ("ok", value) or ("raised", type name)."""
   fn = chart.top if q[1] == TOP else rt.fns[q[1]]
+  if len(q) > 2 and q[2] == "twin" and q[1] != TOP:
+    fn = rt.twin_fns[q[1]]        # another chart's state function that answers to the same name
   try:
     if q[0] == "is_in":
       return ("ok", bool(chart.is_in(fn)))
